@@ -455,6 +455,8 @@ impl BlockFilterRpc for BlockFilterRpcImpl {
         let mut last_key = Vec::new();
         let cells = iter
             .take_while(|(key, _value)| key.starts_with(&prefix))
+            // a key of a script with shorter args can continue the prefix through its block number bytes
+            .filter(|(key, _value)| key.len() >= prefix.len() + 16)
             .filter_map(|(key, value)| {
                 let tx_hash = packed::Byte32::from_slice(&value).expect("stored tx hash");
                 let output_index = u32::from_be_bytes(
@@ -628,7 +630,11 @@ impl BlockFilterRpc for BlockFilterRpcImpl {
             let mut tx_with_cells: Vec<TxWithCells> = Vec::new();
             let mut last_key = Vec::new();
 
-            for (key, value) in iter.take_while(|(key, _value)| key.starts_with(&prefix)) {
+            // a key of a script with shorter args can continue the prefix through its block number bytes
+            for (key, value) in iter
+                .take_while(|(key, _value)| key.starts_with(&prefix))
+                .filter(|(key, _value)| key.len() >= prefix.len() + 17)
+            {
                 let tx_hash = packed::Byte32::from_slice(&value).expect("stored tx hash");
                 if tx_with_cells.len() == limit
                     && tx_with_cells.last_mut().unwrap().transaction.hash != tx_hash.unpack()
@@ -742,6 +748,8 @@ impl BlockFilterRpc for BlockFilterRpcImpl {
             let mut last_key = Vec::new();
             let txs = iter
                 .take_while(|(key, _value)| key.starts_with(&prefix))
+                // a key of a script with shorter args can continue the prefix through its block number bytes
+                .filter(|(key, _value)| key.len() >= prefix.len() + 17)
                 .filter_map(|(key, value)| {
                     let tx_hash = packed::Byte32::from_slice(&value).expect("stored tx hash");
                     let tx = packed::Transaction::from_slice(
@@ -862,6 +870,8 @@ impl BlockFilterRpc for BlockFilterRpcImpl {
 
         let capacity: u64 = iter
             .take_while(|(key, _value)| key.starts_with(&prefix))
+            // a key of a script with shorter args can continue the prefix through its block number bytes
+            .filter(|(key, _value)| key.len() >= prefix.len() + 16)
             .filter_map(|(key, value)| {
                 let tx_hash = packed::Byte32::from_slice(&value).expect("stored tx hash");
                 let output_index = u32::from_be_bytes(
